@@ -242,6 +242,8 @@ def handle (line : String) : String :=
   | ["C"] => doCompile []
   | "H" :: rest => doHelper rest
   | ["P", ops] => PxDrv.doProxy ops
+  | ["Q", input] => let q := quoteBody (hx input); s!"_{toHex q} {if litDecode q == some (hx input) then "ok" else "differs"}"
+  | ["Q"] => "_ ok"
   | ["G", flags, skips, files, fcs, sched] => GnDrv.doGenerate flags skips files fcs sched
   | "R" :: file :: name :: rest => showRender (renderTop (hx file) (hx name) (parseEnv rest))
   | _ => "BAD"
